@@ -30,8 +30,9 @@ BOUNDS = {"quick": {"precedence": "CrossHair: each of 8 options symbolic at laye
                     "norm instance": "a matplotlib Normalize object as the norm option at call / layer level together with vmin/vmax (map, histogram2d)",
                     "histogram1d / scatter / plot": "3 symbolic points; bins int / edges, weights and extra options at layer / call level; colour none/str/Array, "
                                                     "size none/float; plot forms x-y, y only, two layers"},
-          "thorough": {"as": "quick"}}
-FLOOR = {"quick": 80, "thorough": 80}
+          "thorough": {"as": "quick plus every resolution form x option placement for map, log-x histogram1d with every option placement, "
+                             "one-layer histogram2d, thick maps with computed orientations and norm instances"}}
+FLOOR = {"quick": 80, "thorough": 120}
 SHADOW_EVERY = 1
 LIMITS = {"quick": {"max_paths": 400, "budget_s": 200}, "thorough": {"max_paths": 400, "budget_s": 200}}
 STUBS = MAPH.STUBS
@@ -50,7 +51,7 @@ def configs(tier):
     for res in ("int", "dict", "partial", "none"):
         for thick in (False, True):
             for opts in ("layer", "call", "both", "neither"):
-                if res in ("int", "none") and opts not in ("both",):
+                if tier == "quick" and res in ("int", "none") and opts not in ("both",):
                     continue
                 out.append(dict(kind="map", res=res, thick=thick, opts=opts))
     for opts in ("layer", "call", "both", "neither"):
@@ -70,6 +71,16 @@ def configs(tier):
         for bins in ("int", "edges"):
             out.append(dict(kind="hist1d", opts=opts, bins=bins, logx=False))
     out.append(dict(kind="hist1d", opts="both", bins="int", logx=True))
+    if tier != "quick":
+        for opts in ("layer", "call", "neither"):
+            for bins in ("int", "edges"):
+                out.append(dict(kind="hist1d", opts=opts, bins=bins, logx=True))
+        for opts in ("layer", "call", "both", "neither"):
+            out.append(dict(kind="hist2d", opts=opts, nlayers=1))
+        for dirn in ("top", "side"):
+            out.append(dict(kind="map", res="dict", thick=True, opts="both", direction=dirn))
+        for where in ("call", "layer"):
+            out.append(dict(kind="map", res="int", thick=True, opts="both", normobj=where))
     for color in ("none", "str", "array"):
         for size in ("none", "float"):          # Array sizes are drawn as matplotlib patches (real matplotlib objects): not covered
             out.append(dict(kind="scatter", color=color, size=size))
